@@ -549,6 +549,34 @@ def h_state_space(c):
     return out
 
 
+def _model_inputs(mod):
+    """what create_filter_mask / create_data_scs read off the processed model: variable_info rows, grids, signature of the concatenated filter"""
+    import inspect
+    from dags import concatenate_functions
+    vi = mod.variable_info
+    cols = ["is_state", "is_choice", "is_continuous", "is_discrete", "is_stochastic", "is_auxiliary", "is_sparse", "is_dense"]
+    filter_names = mod.function_info.query("is_filter").index.tolist()
+    sig = []
+    if filter_names:
+        sf = concatenate_functions(functions=mod.functions, targets=filter_names, aggregator=jnp.logical_and)
+        sig = list(inspect.signature(sf).parameters)
+    return {"variable_info": [[str(n), [bool(vi.loc[n, k]) for k in cols]] for n in vi.index],
+            "grids": [[str(k), [to_wire(x) for x in np.asarray(v).tolist()]] for k, v in mod.grids.items()],
+            "sig": sig}
+
+
+def h_filter_mask(c):
+    """lcm.state_space.create_filter_mask on a processed model, with the inputs it read off the model"""
+    from lcm.input_processing import process_model
+    from lcm.state_space import create_filter_mask
+    mod = process_model(_build_model(c))
+    if not mod.function_info.query("is_filter").index.tolist():
+        return {"no_filters": True}        # lcm builds no mask for such a model (create_state_choice_space: has_sparse_vars is False)
+    mask = create_filter_mask(model=mod, subset=c.get("subset"), fixed_inputs={"_period": c["period"]}, jit_filter=bool(c.get("jit")))
+    mask = np.asarray(mask)
+    return {"shape": list(mask.shape), "data": [bool(x) for x in mask.reshape(-1).tolist()], "inputs": _model_inputs(mod)}
+
+
 def h_data_scs(c):
     """lcm.simulate.create_data_scs on a processed model; also reports the inputs it read off the model (variable_info, grids,
     the signature of the concatenated filter) so that the regenerated create_data_scs runs on the same inputs"""
